@@ -120,7 +120,7 @@ def oracle(spec, res):
     Vn = np.zeros_like(V)
     for i in range(len(V)):
         Vn[vp[i]] = V[i]
-    Fn = np.array([[vp[i] for i in F[fp[k]]] for k in range(len(F))], dtype=np.int64).reshape(-1, 3)
+    Fn = np.array(np.reshape([[vp[i] for i in F[fp[k]]] for k in range(len(F))], (-1, 3)), dtype=np.int64)
     maskn = None if mask is None else np.array([mask[fp[k]] for k in range(len(F))], dtype=bool)
     try:
         v4, f4, m4 = sc.slice_impl(Vn, Fn, o, n, maskn)
